@@ -227,6 +227,79 @@ def evaluate(spec, seq, w, cfg, mode, w_b=None):
     return evals, nontriv, viols
 
 
+def edit_leg(spec, seq, w, cfg):
+    """
+    C06 across a change of universe membership with neighbour caching ON: on a re-built world,
+    traverse within a universe of all vertices, take one vertex out (from the universe side or from
+    the vertex side), traverse again, put it back (from the other side), traverse again.  Every
+    listing must be exactly the reach set (computed from the real neighbors() with caching off on
+    the cold world) for the membership in force at that moment.
+    Returns (evaluations, nontrivial, [(fingerprint, case)]).
+    """
+    from . import engine_g
+    nv = len(w.v)
+    limit = 100 * (nv + len(w.l) + 1)
+    evals = nontriv = 0
+    viols = []
+    ks = list(range(nv)) if nv <= 5 else sorted({0, 1, nv // 2, nv - 1})
+    un = "NBR"                                   # unknown link classes never raise here
+    for dn in cfg["dirs"]:
+        d, u = DIRS[dn], UNKS[un]
+        Vertex.NEIGHBOR_CACHING = False
+        table = [idx(w, _real_neighbors(v, direction_sensitive=d, unknown_handling=u)) for v in w.v]
+
+        def reach(s, members):
+            R = [s]
+            for x in R:
+                for y in table[x]:
+                    if y in members and y not in R:
+                        R.append(y)
+            return set(R)
+
+        for side in ("universe", "vertex"):
+            w2, _ = engine_g.build(spec, seq, validate=False)
+            Vertex.NEIGHBOR_CACHING = True
+            uni = Universe(vertices=list(w2.v))
+            for k in ks:
+                for phase in ("before", "after-removal", "after-re-adding"):
+                    if phase == "after-removal":
+                        if side == "universe":
+                            uni.remove_vertex(w2.v[k])
+                        else:
+                            w2.v[k].remove_from_universe(uni)
+                    elif phase == "after-re-adding":
+                        if side == "universe":
+                            w2.v[k].add_to_universe(uni)
+                        else:
+                            uni.add_vertex(w2.v[k])
+                    members = {w2.vid(x) for x in uni.vertices}
+                    starts = sorted(members) if nv <= 5 else sorted({0, nv // 2, nv - 1} & members)
+                    for s in starts:
+                        exp = reach(s, members)
+                        for tname, (tlist, tgen, torder) in TRAVERSALS.items():
+                            evals += 1
+                            nontriv += len(exp) > 1
+                            got = guarded(tlist, limit, uni, w2.v[s], direction_sensitive=d, unknown_handling=u)
+                            bad = None
+                            if got[0] != "ret":
+                                bad = "non-termination" if got[0] == "nonterm" else f"raised-{got[1]}"
+                            else:
+                                out = idx(w2, got[1])
+                                if len(set(out)) != len(out):
+                                    bad = "vertex-listed-twice"
+                                elif set(out) - members:
+                                    bad = "outside-universe-listed"
+                                elif set(out) - exp:
+                                    bad = "unreachable-vertex-listed"
+                                elif exp - set(out):
+                                    bad = "reachable-vertex-missing"
+                            if bad:
+                                viols.append((f"{tname}|dir={dn}|caching-on|{phase}-of-a-member-from-the-{side}-side|{bad}",
+                                              ["edit", tname, dn, side, k, phase, s]))
+    Vertex.NEIGHBOR_CACHING = False
+    return evals, nontriv, viols
+
+
 FULL = dict(universes="all-subsets", dirs=("FWD", "ANY", "BWD"), unks=("NON", "NBR", "ERR"),
             via=("none", "reject", "selv", "sell"), res=("none", "reject", "sel"), res_with_via=("none",))
 REDUCED = dict(universes="all-minus-one", dirs=("FWD", "ANY", "BWD"), unks=("NBR", "ERR"),
